@@ -336,6 +336,10 @@ ODD_SRS = [12500, 25000, 50000, 100000, 200000, 250000, 192000, 384000, 32000, 7
 def run(ctx):
     install()
     rng = ctx.rng
+    from rv.props import concurrent_jobs
+
+    concurrent_jobs.run_some(ctx, "C15", quick=3, thorough=12)        # the same calls from a thread pool (rv/core/threads.py)
+    ctx.must_monitors.append("concurrent_calls")
     ctx.rule = ("(file sample rate, time expansion, channels, length, clip start/end | resample target | window/hop); WAV files written by the harness with known integer samples; "
                 "non-trivial = clip not aligned to sample boundaries, or hop not a whole number of samples; distinct = distinct case spec")
     ctx.assumptions += ["PCM_16 files: loaded floats are exactly int/32768", "frame counts whose exact product start*sr or duration*sr lies within 1e-6 of an integer (and is not an integer) are don't-care",
